@@ -90,6 +90,8 @@ pub struct PoolOpts {
     pub stack_kib: u64,
     /// address-space limit in MiB (0 = inherit)
     pub mem_mib: u64,
+    /// executable to run as worker (default: the current one)
+    pub exe: Option<std::path::PathBuf>,
 }
 
 impl PoolOpts {
@@ -101,6 +103,7 @@ impl PoolOpts {
             env: vec![],
             stack_kib: 0,
             mem_mib: 0,
+            exe: None,
         }
     }
 }
@@ -120,7 +123,7 @@ struct Shared {
 /// Spawn `jobs` copies of the current executable (same arguments) as shard workers
 /// and merge what they report.
 pub fn run_pool(opts: &PoolOpts) -> PoolResult {
-    let exe = std::env::current_exe().expect("current_exe");
+    let exe = opts.exe.clone().unwrap_or_else(|| std::env::current_exe().expect("current_exe"));
     let args: Vec<String> = std::env::args().skip(1).collect();
     let n = opts.jobs;
     let results: Arc<Mutex<Vec<(usize, Option<Stats>, Vec<(Death, String)>)>>> =
